@@ -165,6 +165,11 @@ def programs(tier: str):
         for inp in ("sync", "async"):
             yield {"family": "wrap_async", "sig": "a", "form": 0, "input": inp, "outcome": "raise_own", "errclass": c}
             yield {"family": "traced", "sig": "a", "form": 0, "input": inp, "outcome": "raise_own", "errclass": c, "ctx": "scope"}
+    # the wrapped function starts a background task with ctx.spawn and returns
+    for inp in ("sync", "async"):
+        for cctx in ("none", "scope"):
+            yield {"family": "traced", "sig": "a", "form": 0, "input": inp, "outcome": "value", "ctx": cctx, "spawn_inside": True}
+        yield {"family": "wrap_async", "sig": "a", "form": 0, "input": inp, "outcome": "value", "spawn_inside": True}
     for kind in ("function", "method"):
         for executor in ("default", "explicit"):
             yield {"family": "reuse", "kind": kind, "executor": executor}
@@ -197,7 +202,7 @@ def programs(tier: str):
                 continue  # throttle accepts plain coroutine functions only (asserts): not a metadata matter
             for pre in (False, True):
                 yield {"family": "meta", "decorator": f"stack:{outer}-over-{inner}", "pre": pre}
-    for deco in ("asynchronous", "asynchronous()", "wrap_async", "traced", "traced-async", "cache", "cache()", "cache-async", "retry", "retry()", "retry-async", "throttle", "throttle()", "timeout", "asynchronous-method", "cache-method"):
+    for deco in ("asynchronous", "asynchronous()", "wrap_async", "traced", "traced-async", "cache", "cache()", "cache-async", "retry", "retry()", "retry-async", "throttle", "throttle()", "timeout", "asynchronous-method", "cache-method", "asynchronous-method-nodoc", "cache-method-nodoc"):
         yield {"family": "meta", "decorator": deco}
     # every combination of every decorator's options ("-" = argument left out)
     import itertools as _it
@@ -571,6 +576,13 @@ def execute(program, ch: Chooser) -> Result:  # noqa: C901, PLR0912, PLR0915
         seen["state"] = _state_token(tags)
         if fam == "traced":
             seen["label"] = _label()
+        if program.get("spawn_inside"):
+            # the function starts a background task through the context: it belongs to the
+            # caller's scope (or is detached) - the call itself returns without waiting for it
+            async def background():
+                await w.pause("background", low=True)
+
+            seen["bg"] = ctx.spawn(background)
         # leave a context change open on purpose: it must not leak back to the caller
         cm = ctx.updated(a9)
         cm.__enter__()
@@ -659,6 +671,8 @@ def execute(program, ch: Chooser) -> Result:  # noqa: C901, PLR0912, PLR0915
                 if inspect.isawaitable(r) and not (fam == "traced" and program.get("input") == "sync"):
                     r = await r  # the wrapper's coroutine (a sync traced function returns directly)
                 got["out"] = ("value", r)
+                if "bg" in seen:
+                    got["bg_done_at_return"] = seen["bg"].done()
             except BaseException as exc:  # noqa: BLE001
                 # (run_in_executor re-creates TimeoutError / InvalidStateError objects when it copies
                 #  the outcome from the thread's future: same class, same args - still the function's own)
@@ -754,6 +768,8 @@ def execute(program, ch: Chooser) -> Result:  # noqa: C901, PLR0912, PLR0915
                     want_res = special[outcome] if outcome in special else (boom if outcome != "value" else RESULT)
                     if len(rt) != 1 or rt[0].result is not want_res:
                         viols.append(viol("traced-result", witness, "the produced value / exception", [str(x) for x in rt]))
+        if program.get("spawn_inside") and got.get("bg_done_at_return"):
+            viols.append(viol("transparent", f"waits-for-spawned-task/{witness}", "the call returns while the task it spawned is still running", "returned only after the task had finished"))
         for cm in leak_cms:
             pass  # never exited on purpose
         nontrivial = bool(kwargs) or len(args) > 1 or outcome != "value" or program.get("ctx", "none") != "none"
@@ -859,6 +875,24 @@ def _meta(program) -> Result:  # noqa: C901, PLR0912
             original = async_fn if program["opts"]["fn"] == "async" else sync_fn
             wrapped = _grid_decorate(deco[5:], program["opts"], original)
             deco = deco + "/" + ",".join(f"{k}={v}" for k, v in program["opts"].items() if v != "-")
+        elif deco in ("asynchronous-method-nodoc", "cache-method-nodoc"):
+            _d = asynchronous if deco.startswith("asynchronous") else cache
+
+            class O3:
+                @_d
+                def sync_fn(self, a, b=1):
+                    return a
+
+            original = O3.__dict__["sync_fn"].__wrapped__
+            wrapped = O3().sync_fn
+            name = getattr(wrapped, "__name__", None)
+            if name != "sync_fn":
+                viols.append(viol("metadata", f"name/{deco}", "sync_fn", name))
+            if getattr(wrapped, "__doc__", None) is not None:
+                viols.append(viol("metadata", f"doc/{deco}", None, getattr(wrapped, "__doc__", None)))
+            if getattr(wrapped, "__wrapped__", None) is not original:
+                viols.append(viol("metadata", f"wrapped/{deco}", "the original function", repr(getattr(wrapped, "__wrapped__", None))[:80]))
+            return Result(f"meta/{deco}", True, viols, {"decorator": deco}, steps=3)
         elif deco == "asynchronous-method":
 
             class O1:
